@@ -111,7 +111,58 @@ def run(ctx):
     gates(ctx, R)
 
 
+def scoped_switches(ctx, R):
+    """Module-level boolean switches of commands.py that can turn the extension checks off for a while: names bound to True at module
+    level and re-bound (through `global`) only in functions that give the previous value back on EVERY way out, exceptions included
+    (`previous = X; X = False; try: ... finally: X = previous`).  Whoever is not inside such a scope sees True, so a gate may
+    treat `not X` like an explicit check_extension=False.  A switch whose scope can be left without the restore is reported."""
+    mod = R.cmod
+    out = set()
+    for name, val in mod.assigns.items():
+        if not (isinstance(val, ast.Constant) and val.value is True):
+            continue
+        writers = [f for f in mod.all_funcs() if any(isinstance(g, ast.Global) and name in g.names for g in ast.walk(f.node))]
+        if not writers:
+            continue
+        ctx.rule("E7", "a switch that suspends the extension checks is restored on every way out of the scope that lowered it")
+        ok_all = True
+        for f in writers:
+            saved = {a.targets[0].id for a in walk_no_nested(f.node) if isinstance(a, ast.Assign) and len(a.targets) == 1
+                     and isinstance(a.targets[0], ast.Name) and isinstance(a.value, ast.Name) and a.value.id == name}
+            for a in walk_no_nested(f.node):
+                if not (isinstance(a, ast.Assign) and any(isinstance(t, ast.Name) and t.id == name for t in a.targets)):
+                    continue
+                v = a.value
+                restoring = (isinstance(v, ast.Constant) and v.value is True) or (isinstance(v, ast.Name) and v.id in saved)
+                if restoring:
+                    continue
+                # a lowering store: the very next statement must be a try whose finally restores the switch
+                par = getattr(a, "_parent", None)
+                nxt = None
+                for fld in ("body", "orelse", "finalbody"):
+                    lst = getattr(par, fld, None)
+                    if isinstance(lst, list) and a in lst and lst.index(a) + 1 < len(lst):
+                        nxt = lst[lst.index(a) + 1]
+                good = isinstance(nxt, ast.Try) and any(
+                    isinstance(x, ast.Assign) and any(isinstance(t, ast.Name) and t.id == name for t in x.targets) and (
+                        (isinstance(x.value, ast.Constant) and x.value.value is True) or (isinstance(x.value, ast.Name) and x.value.id in saved))
+                    for x in nxt.finalbody)
+                if good:
+                    ctx.holds("E7", "%s: %s lowered, restored in a finally clause" % (f.qualname, name))
+                else:
+                    ok_all = False
+                    ctx.violation("E7", f, "switch-not-restored:%s" % name, "%s sets %s = %s without a try/finally that restores it: an exception "
+                                  "raised while it is lowered leaves the extension checks off for the rest of the process"
+                                  % (f.qualname, name, norm(v)), node=a,
+                                  witness="a filter definition rejected by the factory (unknown action) and every later script is accepted "
+                                          "whatever it requires")
+        if ok_all:
+            out.add(name)
+    return out
+
+
 def gates(ctx, R):
+    switches = scoped_switches(ctx, R)
     table = R.table()
     by_name = {e["name"]: e for e in table.values() if not e["abstract"]}
     # ---- E2 ----------------------------------------------------------------------
@@ -125,13 +176,17 @@ def gates(ctx, R):
 
     def gate2(fc):
         e, pol = fact_atom(fc)
-        if isinstance(e, ast.Name) and e.id in bypass:
+        if isinstance(e, ast.Name) and (e.id in bypass or e.id in switches):
             return pol is False
         if registry_test(e, pol) == "loaded":
             return True
         if isinstance(e, ast.Attribute) and e.attr == "extension":
             return pol is False
+        if isinstance(e, ast.Name) and e.id in ext_locals:
+            return pol is False  # a local holding <class>.extension: falsy means the command needs none
         return False
+    ext_locals = {a.targets[0].id for a in walk_no_nested(lk.node) if isinstance(a, ast.Assign) and len(a.targets) == 1
+                  and isinstance(a.targets[0], ast.Name) and isinstance(a.value, ast.Attribute) and a.value.attr == "extension"}
 
     for r in rets:
         for nd in cfg.nodes_for(r):
@@ -172,7 +227,7 @@ def gates(ctx, R):
 
     def gate3(fc):
         e, pol = fact_atom(fc)
-        if isinstance(e, ast.Name) and e.id in ce:
+        if isinstance(e, ast.Name) and (e.id in ce or e.id in switches):
             return pol is False
         if isinstance(e, ast.Name) and e.id in ext_vars:
             return pol is False
@@ -251,8 +306,10 @@ def gates(ctx, R):
 
     def gate4(fc):
         e, pol = fact_atom(fc)
-        if isinstance(e, ast.Name) and e.id in cev:
+        if isinstance(e, ast.Name) and (e.id in cev or e.id in switches):
             return pol is False
+        if isinstance(e, ast.Name) and e.id in evars:
+            return pol is False  # no extension found for the value after all: nothing to gate on this edge
         if registry_test(e, pol) == "loaded":
             return True
         return False
@@ -330,8 +387,8 @@ def gates(ctx, R):
         if f is R.reset:
             v = st.value if isinstance(st, ast.Assign) else None
             is_clear = isinstance(st, ast.Expr) and isinstance(st.value, ast.Call) and call_name(st.value) == "clear"
-            if is_clear or (v is not None and const_value(ctx.program, f, v) in ([], ())):
-                ctx.holds("E6", "%s empties the registry" % f.qualname)
+            if is_clear or (v is not None and R.fresh_start_value(v) is not None):
+                ctx.holds("E6", "%s starts the registry anew (%s)" % (f.qualname, "cleared" if is_clear else R.fresh_start_value(v)))
             else:
                 ctx.violation("E6", f, "reset-not-empty", "the parser reset writes %s to the registry" % norm(st), node=st)
         elif f.cls is R.Require and f.name == "complete_cb":
